@@ -91,15 +91,15 @@ Section Keys.
   Lemma mkkey_spec n : scalar_text n = true -> mkkey c n = Ok (skey c spyne_style n).
   Proof.
     intros H. unfold mkkey, skey, msgpack, is_msgpack, key_bytes, spyne_style. cbn [st_key_bin].
-    destruct (c_proto c); try reflexivity. cbn [andb].
-    unfold utf8_bytes. destruct (utf8_enc_scalar n H) as [b ->]. reflexivity.
+    destruct (c_proto c); try reflexivity; cbn [andb];
+      unfold utf8_bytes; destruct (utf8_enc_scalar n H) as [b ->]; reflexivity.
   Qed.
 
   Lemma norm_key_spec st n : scalar_text n = true -> norm_key c (skey c st n) = Ok (JStr n).
   Proof.
     intros H. unfold norm_key, skey, msgpack, is_msgpack, key_bytes.
-    destruct (c_proto c); try reflexivity. cbn [andb]. destruct (st_key_bin st); [|reflexivity].
-    rewrite (utf8_bytes_dec n H). reflexivity.
+    destruct (c_proto c); try reflexivity; cbn [andb]; (destruct (st_key_bin st); [|reflexivity]);
+      rewrite (utf8_bytes_dec n H); reflexivity.
   Qed.
 
   Lemma key_name_spec st n : scalar_text n = true -> key_name (skey c st n) = Ok (Some n).
